@@ -2,7 +2,7 @@ import NrDaemon.Model.Proc
 import NrDaemon.Lemmas.Proc
 /-!
   C12, clause "a category whose limit is zero is never sent", at the level of the processor model (both harvest paths).
-  Kept apart from `Props/C12.lean` (the timer machine) because it needs the processor model.
+  Lemmas about the requests a harvest makes (used by `Props/C12.lean` and `Props/C04.lean`).
 -/
 open Gen.Limits
 
@@ -221,3 +221,39 @@ theorem zeroLimit_combined (s : PState) (runId : String) (run : RunM) (app : App
     · exact absurd h.1 (by decide)
     · exact absurd h.1 (by decide)
     · exact absurd h (by decide)
+
+
+/-! ### every request of a harvest carries the parameters the harvest was started with (used by C04) -/
+
+theorem evStep_from (acc : HAcc) (a : HArgs) (on : Bool) (pl : List (Cat × Payload)) (upd : HarvestM → HarvestM)
+    (P : Req → Prop) (hacc : ∀ r ∈ acc.reqs, P r) (hP : ∀ r, ReqFrom a r → P r) :
+    ∀ r ∈ (evStep acc a on pl upd).reqs, P r := by
+  unfold evStep
+  cases on with
+  | false => intro r hr; exact hacc r (by simpa using hr)
+  | true =>
+    intro r hr
+    simp only [if_true, List.mem_append] at hr
+    rcases hr with hr | hr
+    · exact hacc r hr
+    · exact hP r (considerMany_from acc.s a pl r hr).1
+
+theorem harvestByType_from (s : PState) (runId : String) (run : RunM) (app : AppM) (cfg : RunCfg) (mask : Nat) (a : HArgs) :
+    ∀ r ∈ (harvestByType s runId run app cfg mask a).2, ReqFrom a r := by
+  intro r hr
+  unfold harvestByType at hr
+  split at hr
+  · unfold harvestAllPart at hr
+    simp only [] at hr
+    exact (considerMany_from _ _ _ r hr).1
+  · unfold harvestTypesPart at hr
+    simp only [] at hr
+    rw [finishTypes_reqs] at hr
+    have hP : ∀ (g : Nat) (r : Req), ReqFrom { a with group := g } r → ReqFrom a r := fun _ _ h => h
+    refine evStep_from _ _ _ _ _ (ReqFrom a) ?_ (hP _) r hr
+    refine evStep_from _ _ _ _ _ (ReqFrom a) ?_ (hP _)
+    refine evStep_from _ _ _ _ _ (ReqFrom a) ?_ (hP _)
+    refine evStep_from _ _ _ _ _ (ReqFrom a) ?_ (hP _)
+    refine evStep_from _ _ _ _ _ (ReqFrom a) ?_ (hP _)
+    refine evStep_from _ _ _ _ _ (ReqFrom a) ?_ (hP _)
+    intro r hr; simp at hr
